@@ -41,6 +41,8 @@ type JobOpts struct {
 	// EagerDeliver: events are delivered as soon as the catch events they address listen
 	EagerDeliver bool `json:"eager_deliver"`
 	EagerAnswer  bool `json:"eager_answer"`
+	// Instant: the scripted steps are ignored, every request is answered the moment it appears
+	Instant bool `json:"instant"`
 }
 
 type Job struct {
@@ -83,6 +85,7 @@ func (o JobOpts) driveOptsFor(run int) drive.Options {
 	d.EarlyWait = o.EarlyWait && run%2 == 0
 	d.EagerDeliver = o.EagerDeliver
 	d.EagerAnswer = o.EagerAnswer
+	d.Instant = o.Instant
 	switch {
 	case o.LingerMs > 0:
 		d.Linger = time.Duration(o.LingerMs) * time.Millisecond
